@@ -588,7 +588,7 @@ func checkC14(r *kit.Run) {
 	var graphs []*mvsGraph
 	graphs = append(graphs, mvsGraphsFromTLC(r, "Mvs_quick.cfg", 3, 2, 0, false)...)
 	nq := len(graphs)
-	graphs = append(graphs, mvsGraphsFromTLC(r, kit.Pick(r, "Mvs_sample.cfg", "Mvs_sample_big.cfg"), kit.Pick(r, 5, 8), kit.Pick(r, 3, 4), r.Seed+1000, true)...)
+	graphs = append(graphs, mvsGraphsFromTLC(r, kit.Pick(r, "Mvs_sample.cfg", "Mvs_sample_big.cfg"), kit.Pick(r, 5, 6), kit.Pick(r, 3, 3), r.Seed+1000, true)...)
 	if r.Thorough() {
 		graphs = append(graphs, mvsGraphsFromTLC(r, "Mvs_older.cfg", 3, 2, 0, false)...)
 	}
